@@ -21,6 +21,7 @@ import EsbuildModel.Impl.Stdio
 import EsbuildModel.Impl.NumPrint
 import EsbuildModel.Impl.Slots
 import EsbuildModel.Impl.PkgExports
+import EsbuildModel.Impl.SmJoin
 
 open EsbuildModel
 
@@ -49,6 +50,7 @@ def dispatch (kernel : String) (args : List String) : String :=
   | "numprint" => NumPrint.driver args
   | "slots" => Slots.driver args
   | "pkgexports" => PkgExports.driver args
+  | "smjoin" => SmJoin.driver args
   | _ => "bad-kernel"
 
 partial def loop (hin hout : IO.FS.Stream) : IO Unit := do
